@@ -2,25 +2,27 @@ import JoblibModel.Lru
 /-! Helper lemmas for C18 (kept apart from the property theorems). -/
 namespace JoblibModel.Lru
 
-theorem total_append (a b : List Item) : total (a ++ b) = total a + total b := by
+variable {α : Type}
+
+theorem total_append (a b : List (Item α)) : total (a ++ b) = total a + total b := by
   induction a with
   | nil => simp [total]
   | cons x xs ih => simp [total, ih]; omega
 
-theorem total_nonneg (a : List Item) : 0 ≤ total a := by
+theorem total_nonneg (a : List (Item α)) : 0 ≤ total a := by
   induction a with
   | nil => simp [total]
   | cons x xs ih => simp [total]; omega
 
-theorem total_take_drop (k : Nat) (a : List Item) : total (a.take k) + total (a.drop k) = total a := by
+theorem total_take_drop (k : Nat) (a : List (Item α)) : total (a.take k) + total (a.drop k) = total a := by
   rw [← total_append, List.take_append_drop]
 
 /-- The `break` test of the loop. -/
-def Brk (tds tdi : Int) (dl : Option Int) (s n : Int) (it : Item) : Prop :=
+def Brk (tds tdi : Int) (dl : Option Int) (s n : Int) (it : Item α) : Prop :=
   s ≥ tds ∧ n ≥ tdi ∧ fresh dl it.access = true
 
 theorem takeLoop_spec (tds tdi : Int) (dl : Option Int) :
-    ∀ (xs : List Item) (s n : Int),
+    ∀ (xs : List (Item α)) (s n : Int),
       ∃ r, xs = takeLoop tds tdi dl xs s n ++ r ∧
         (∀ it r', r = it :: r' →
           Brk tds tdi dl (s + total (takeLoop tds tdi dl xs s n))
@@ -68,7 +70,7 @@ theorem takeLoop_spec (tds tdi : Int) (dl : Option Int) :
           have e2 : n + ((j + 1 : Nat) : Int) = n + 1 + j := by omega
           rw [e1, e2]; exact this
 
-theorem insertByAccess_perm (x : Item) (l : List Item) : (insertByAccess x l).Perm (x :: l) := by
+theorem insertByAccess_perm (x : Item α) (l : List (Item α)) : (insertByAccess x l).Perm (x :: l) := by
   induction l with
   | nil => simp [insertByAccess]
   | cons y ys ih =>
@@ -77,14 +79,14 @@ theorem insertByAccess_perm (x : Item) (l : List Item) : (insertByAccess x l).Pe
     · exact List.Perm.refl _
     · exact (List.Perm.cons y ih).trans (List.Perm.swap x y ys)
 
-theorem sortByAccess_perm (items : List Item) : (sortByAccess items).Perm items := by
+theorem sortByAccess_perm (items : List (Item α)) : (sortByAccess items).Perm items := by
   induction items with
   | nil => simp [sortByAccess]
   | cons x xs ih =>
     simp only [sortByAccess]
     exact (insertByAccess_perm x _).trans (List.Perm.cons x ih)
 
-theorem insertByAccess_sorted (x : Item) (l : List Item)
+theorem insertByAccess_sorted (x : Item α) (l : List (Item α))
     (h : l.Pairwise (fun a b => a.access ≤ b.access)) :
     (insertByAccess x l).Pairwise (fun a b => a.access ≤ b.access) := by
   induction l with
@@ -107,23 +109,23 @@ theorem insertByAccess_sorted (x : Item) (l : List Item)
       · omega
       · exact hy.1 z hz''
 
-theorem sortByAccess_sorted (items : List Item) :
+theorem sortByAccess_sorted (items : List (Item α)) :
     (sortByAccess items).Pairwise (fun a b => a.access ≤ b.access) := by
   induction items with
   | nil => simp [sortByAccess]
   | cons x xs ih => exact insertByAccess_sorted x _ ih
 
-theorem sortByAccess_length (items : List Item) : (sortByAccess items).length = items.length :=
+theorem sortByAccess_length (items : List (Item α)) : (sortByAccess items).length = items.length :=
   (sortByAccess_perm items).length_eq
 
-theorem total_perm {a b : List Item} (h : a.Perm b) : total a = total b := by
+theorem total_perm {a b : List (Item α)} (h : a.Perm b) : total a = total b := by
   induction h with
   | nil => rfl
   | cons x _ ih => simp [total, ih]
   | swap x y l => simp [total]; omega
   | trans _ _ ih1 ih2 => omega
 
-theorem minAccess_le (items : List Item) (m : Int) (h : minAccess items = some m) :
+theorem minAccess_le (items : List (Item α)) (m : Int) (h : minAccess items = some m) :
     ∀ it ∈ items, m ≤ it.access := by
   induction items generalizing m with
   | nil => simp
@@ -143,7 +145,7 @@ theorem minAccess_le (items : List Item) (m : Int) (h : minAccess items = some m
       · split at h <;> omega
       · have := this it h'; split at h <;> omega
 
-theorem minAccess_mem (items : List Item) (m : Int) (h : minAccess items = some m) :
+theorem minAccess_mem (items : List (Item α)) (m : Int) (h : minAccess items = some m) :
     ∃ it ∈ items, it.access = m := by
   induction items generalizing m with
   | nil => simp [minAccess] at h
@@ -158,9 +160,26 @@ theorem minAccess_mem (items : List Item) (m : Int) (h : minAccess items = some 
       · exact ⟨x, by simp, h⟩
       · exact ⟨it, by simp [hit], by omega⟩
 
-theorem minAccess_none (items : List Item) (h : minAccess items = none) : items = [] := by
+theorem minAccess_none (items : List (Item α)) (h : minAccess items = none) : items = [] := by
   cases items with
   | nil => rfl
   | cons x xs => simp [minAccess] at h; split at h <;> simp at h
+
+theorem itemsToDelete_prefix (items : List (Item α)) (l : Limits) :
+    itemsToDelete items l <+: sortByAccess items := by
+  unfold itemsToDelete
+  split
+  · exact List.nil_prefix
+  · split
+    · exact List.nil_prefix
+    · obtain ⟨r, h, _⟩ := takeLoop_spec (toDeleteSize items l) (toDeleteItems items l) l.deadline
+        (sortByAccess items) 0 0
+      exact ⟨r, h.symm⟩
+
+theorem itemsToDelete_append_survivors (items : List (Item α)) (l : Limits) :
+    itemsToDelete items l ++ survivors items l = sortByAccess items := by
+  obtain ⟨r, hr⟩ := itemsToDelete_prefix items l
+  unfold survivors
+  rw [← hr]; simp
 
 end JoblibModel.Lru
